@@ -32,7 +32,8 @@ def attribute(why):
 
 class Knobs:
     def __init__(self, fail_rate=0, notexec_rate=0, undefined_rate=10, delays=False, max_targets=5, slow_deps=True,
-                 redirect_rate=0, multi_fail=False, custom_dirs=False):
+                 redirect_rate=0, multi_fail=False, custom_dirs=False, checkpoint=False, chmod=False, listener=False,
+                 sabotage=False, slash=False):
         self.fail_rate = fail_rate          # percent of tasks that exit non-zero
         self.notexec_rate = notexec_rate    # percent of command files without x bit
         self.undefined_rate = undefined_rate
@@ -42,13 +43,20 @@ class Knobs:
         self.redirect_rate = redirect_rate
         self.multi_fail = multi_fail
         self.custom_dirs = custom_dirs
+        self.checkpoint = checkpoint        # commit, checkpoint update, then edit / add files (+ update --pending, more edits)
+        self.chmod = chmod                  # a task of an earlier command changes the x bit of a later command's file
+        self.listener = listener            # a `log tail` listener is attached and SIGKILLed during the run
+        self.sabotage = sabotage            # a task of the first group wipes the run's log directories ("clean" step)
+        self.slash = slash                  # one target path is written with a trailing slash
 
 
 def build(seed, knobs):
     rng = scen.Rng(seed)
     sc = rungen.RunScenario(rng, max_targets=knobs.max_targets, with_argmaps=False, custom_dirs=knobs.custom_dirs,
-                            undefined_pct=knobs.undefined_rate)
+                            undefined_pct=knobs.undefined_rate, slash=knobs.slash)
     sc.args = []
+    if knobs.chmod or knobs.sabotage:
+        sc.named, sc.deps = [], False     # every target takes part, so the acting task does too
     sc.notexec = set()
     sc.script = {}
     depth = {}
@@ -82,6 +90,56 @@ def build(seed, knobs):
             if rng.chance(1, 3):
                 s["steps"] = [[rng.pick([0, 3]), rng.pick([1, 2]), ("%s|%s\n" % (c, p)).encode().hex()]]
             sc.script["%s|%s" % (c, p)] = s
+    sc.ck_plan = None
+    if knobs.checkpoint:
+        # edits relative to a checkpoint taken at the first commit: (kind, target index, when)
+        # kind: modify a tracked file / add an untracked file; when: before or after `update --pending`
+        n = len(sc.targets)
+        ops = []
+        for _ in range(rng.range(0, 4)):
+            ops.append([rng.pick(["modify", "untracked"]), rng.below(n), rng.pick(["before", "after"])])
+        sc.ck_plan = {"pending": rng.chance(1, 2), "ops": ops}
+    sc.dyn_disp = {}
+    sc.chmod_plan = None
+    cl = sc.command_list()
+    if knobs.chmod and len(cl) >= 2:
+        runnable = lambda c, p: (sc.cmd_layout[p]["files"][c] is not None and not sc.cmd_layout[p]["defs"].get(c))
+        first = [(cl[0], t["path"]) for t in sc.targets if runnable(cl[0], t["path"]) and (cl[0], t["path"]) not in sc.notexec]
+        later = [(c, t["path"]) for c in cl[1:] for t in sc.targets if runnable(c, t["path"])]
+        if first and later:
+            actor, victim = rng.pick(first), rng.pick(later)
+            if rng.chance(1, 2):
+                sc.notexec.discard(victim)
+                sc.script.setdefault("%s|%s" % victim, {"sleep_ms": 0})
+                sc.chmod_plan = {"actor": actor, "victim": victim, "mode": 0o644}
+                sc.dyn_disp[victim] = "notexec"
+            else:
+                sc.notexec.add(victim)
+                sc.script.setdefault("%s|%s" % victim, {"sleep_ms": 0})
+                sc.chmod_plan = {"actor": actor, "victim": victim, "mode": 0o755}
+                sc.dyn_disp[victim] = "run"
+    sc.listener_kill = None
+    if knobs.listener:
+        sc.listener_kill = rng.pick([0.0, 0.03, 0.1, 0.3, 0.6])
+        for k, sct in sc.script.items():
+            if not sct.get("redirect"):
+                sct["steps"] = [[0, 1, ("%s one\n" % k).encode().hex()], [rng.pick([200, 400, 650]), 1, ("%s two\n" % k).encode().hex()],
+                                [rng.pick([0, 300]), 2, ("%s three\n" % k).encode().hex()]]
+    sc.sabotage = None
+    if knobs.sabotage and not sc.named:
+        # a runnable task without dependencies (first group) of the first command wipes the log
+        # directories of that command; tasks of later groups print early and keep running
+        roots = [i for i in range(len(sc.targets)) if not adj[i]]
+        cands = [sc.targets[i]["path"] for i in roots if "%s|%s" % (cl[0], sc.targets[i]["path"]) in sc.script] if cl else []
+        if cands and maxd >= 2:
+            p = rng.pick(cands)
+            sc.sabotage = [cl[0], p]
+            sc.script["%s|%s" % (cl[0], p)]["rm_run_cmd"] = cl[0]
+            for i, t in enumerate(sc.targets):
+                k = "%s|%s" % (cl[0], t["path"])
+                if depth[i] >= 2 and k in sc.script:
+                    sc.script[k]["steps"] = [[0, 1, ("%s starts\n" % k).encode().hex()]]
+                    sc.script[k]["sleep_ms"] = 900 + (maxd - depth[i]) * 100
     sc.point_env = None
     if knobs.delays:
         pts = []
@@ -96,6 +154,8 @@ def build(seed, knobs):
 
 
 def disp_of(sc, c, p):
+    if (c, p) in getattr(sc, "dyn_disp", {}):
+        return sc.dyn_disp[(c, p)]       # the x bit is changed by an earlier command of the same run
     lay = sc.cmd_layout[p]
     if lay["defs"].get(c):
         return "notexec" if (c, p) in sc.notexec else "run"   # a definition with an explicit path
@@ -114,7 +174,33 @@ def install(sc):
         import shutil
         shutil.copy(scen.HELPER, exe)
         os.chmod(exe, 0o644)
+    if getattr(sc, "chmod_plan", None):
+        cp = sc.chmod_plan
+        exe = sc.expected_exe[cp["victim"]]
+        import shutil
+        # the command files are hard links to one helper binary: give the victim its own inode
+        os.remove(exe)
+        shutil.copy(scen.HELPER, exe)
+        os.chmod(exe, 0o755 if cp["mode"] == 0o644 else 0o644)
+        sc.script["%s|%s" % cp["actor"]]["chmod"] = [[exe, cp["mode"]]]
     repo.set_plan(sc.script)
+    sc.checkpointed = False
+    if getattr(sc, "ck_plan", None):
+        repo.commit_all()
+        rc, j, out, err = repo.mono("checkpoint", "update")
+        sc.checkpointed = rc == 0
+
+        def apply(when):
+            for kind, i, w in sc.ck_plan["ops"]:
+                if w != when:
+                    continue
+                d = os.path.join(repo.dir, sc.targets[i]["path"])
+                with open(os.path.join(d, "file.txt" if kind == "modify" else "new_%s.txt" % when), "a") as f:
+                    f.write("edit %s\n" % when)
+        apply("before")
+        if sc.ck_plan["pending"]:
+            repo.mono("checkpoint", "update", "--pending")
+        apply("after")
     return repo
 
 
@@ -127,7 +213,25 @@ def observe(sc, repo, model, timeout=120):
     desc["points"] = sc.point_env
     # what analyze shows right before (no checkpoint in these scenarios => all targets)
     rc_a, ja, _, _ = repo.mono("analyze", "--target-groups")
+    tail = None
+    if getattr(sc, "listener_kill", None) is not None:
+        import logtail
+        import threading
+        tail = logtail.start_tail(repo, {"stdout": True, "stderr": True, "targets": [], "commands": []})
+        desc["listener_killed_after_s"] = sc.listener_kill
+        if sc.listener_kill == 0.0:
+            tail.kill()
+            tail.wait()
+        else:
+            threading.Timer(sc.listener_kill, tail.kill).start()
+    desc["checkpoint_plan"] = getattr(sc, "ck_plan", None)
+    desc["chmod_plan"] = ({"actor": list(sc.chmod_plan["actor"]), "victim": list(sc.chmod_plan["victim"]), "mode": oct(sc.chmod_plan["mode"])}
+                          if getattr(sc, "chmod_plan", None) else None)
+    desc["sabotage"] = getattr(sc, "sabotage", None)
     rc, j, out, err = repo.mono(*sc.argv(), extra_env=sc.point_env, timeout=timeout)
+    if tail is not None:
+        tail.kill()
+        tail.wait()
     info = {"rc": rc}
     if rc is None:
         verdicts.append(("C06", {"kind": "run did not terminate", "scenario": desc}))
@@ -144,6 +248,12 @@ def observe(sc, repo, model, timeout=120):
         return verdicts, info
     # expected selection / structure
     exp_targets = sc.expected_targets()
+    if getattr(sc, "checkpointed", False) and not sc.named:
+        # with a checkpoint, `run` without targets covers what analyze reports as changed at that moment
+        if rc_a != 0 or ja is None:
+            return verdicts, info
+        exp_targets = sorted(ja.get("targets", []))
+        desc["analyze_targets"] = exp_targets
     struct = [[sorted(g.keys()) for g in r["target_groups"]] for r in j["results"]]
     for s in struct:
         flat = sorted(x for g in s for x in g)
@@ -200,8 +310,10 @@ def observe(sc, repo, model, timeout=120):
                 results.append([ids[(r["command"], t)], e["status"], e.get("code")])
     traces = repo.traces()
     started, ended, times = [], [], []
+    # the helper names its target by its working directory: "core" for a target declared as "core/"
+    label = {t["path"].rstrip("/"): t["path"] for t in sc.targets}
     for tr in traces:
-        k = (tr["command"], tr["target"])
+        k = (tr["command"], label.get(tr["target"], tr["target"]))
         if k not in ids:
             verdicts.append(("C05", {"kind": "an executable outside the plan was started", "scenario": desc, "what": list(k)}))
             continue
@@ -210,16 +322,11 @@ def observe(sc, repo, model, timeout=120):
             ended.append([ids[k], tr["exit"]])
             times.append([ids[k], tr["start_ns"], tr["end_ns"]])
     obs = {"results": results, "failed": j["failed"], "exit": rc, "started": started, "ended": ended, "times": times}
-    fou = sc.fail_on_undefined
-    v = model.ask({"op": "execcheck", "plan": plan, "fou": fou, "obs": obs})
-    info.update({"plan": plan, "obs": obs, "nstarted": len(started), "ngroups": len(plan), "failed": j["failed"]})
-    if v["oracle"] == "fail":
-        verdicts.append((attribute(v["why"]), {"kind": v["why"], "scenario": desc, "plan": plan, "observation": obs}))
-        return verdicts, info
     # C04: a target's executable starts only after the executables of everything it depends on
     # (documented relation, recomputed here from the configuration) have exited - for the selection
     # modes that promise dependency order (plain -t runs the named targets one at a time, in no
     # particular order)
+    dep_violation = False
     if not sc.named or sc.deps:
         adj = rungen.deps_of(sc.targets)
         paths = [t["path"] for t in sc.targets]
@@ -237,7 +344,31 @@ def observe(sc, repo, model, timeout=120):
                         verdicts.append(("C04", {"kind": "an executable started before the executable of a target it depends on had exited",
                                                  "scenario": desc, "command": c, "target": p, "dependency": paths[k],
                                                  "plan": plan, "observation": obs}))
-                        return verdicts, info
+                        dep_violation = True
+                        break
+                if dep_violation:
+                    break
+            if dep_violation:
+                break
+    # C04, second clause: no executable of a later command starts before every executable of the
+    # previous commands has exited (every selection mode)
+    if not dep_violation:
+        tm = {e[0]: e for e in times}
+        cmd_of = {v: k[0] for k, v in ids.items()}
+        pos = {c: n for n, c in enumerate(cmds)}
+        for a in sorted(tm):
+            late = [b for b in started if pos[cmd_of[b]] < pos[cmd_of[a]] and (b not in tm or tm[b][2] > tm[a][1])]
+            if late:
+                verdicts.append(("C04", {"kind": "an executable of a later command started before every executable of the previous command had exited",
+                                         "scenario": desc, "later": a, "still_running": late[0], "plan": plan, "observation": obs}))
+                dep_violation = True
+                break
+    fou = sc.fail_on_undefined
+    v = model.ask({"op": "execcheck", "plan": plan, "fou": fou, "obs": obs})
+    info.update({"plan": plan, "obs": obs, "nstarted": len(started), "ngroups": len(plan), "failed": j["failed"]})
+    if v["oracle"] == "fail":
+        verdicts.append((attribute(v["why"]), {"kind": v["why"], "scenario": desc, "plan": plan, "observation": obs}))
+        return verdicts, info
     # a defined, executable command of a selected target runs exactly once when nothing failed before it
     if not j["failed"]:
         for grp in plan:
